@@ -276,3 +276,202 @@ def damage(rng, text, op):
             p = rng.choice(pos)
             return text[:p] + rng.choice(["", "x", "99999999999999999999", "0", "/", "-", "13", "00"]) + text[p + 1:]
     return text
+
+
+# ------------------------------------------------------------------ hand-written adversarial texts
+
+def _rsu(**kw):
+    r = dict(sym="FOO", date=datetime.date(2024, 2, 20).toordinal(), award="R12353", released="100.0000", sold="10.0000",
+             fmv="105.610000", sale="106.360000", fee="4.17")
+    r.update(kw)
+    return E.render_rsu(r, kw.get("style", 0))
+
+
+def _eso(grants, style=0, **kw):
+    r = dict(sym="FOO", date=datetime.date(2024, 2, 21).toordinal(), extype="Same-Day Sale", shares_sold="35", grants=grants)
+    r.update(kw)
+    return E.render_eso(r, style)
+
+
+def _g(num="1234", fmv="90.25", shares="100", sale="120.00", fee="10.00"):
+    return dict(num=num, fmv=fmv, shares=shares, sale=sale, fee=fee)
+
+
+def _post(**kw):
+    d = datetime.date(2024, 2, 21).toordinal()
+    r = dict(acct="123-XXX789-111", td=d, sd=d + 2, qty=5, price="106.36", ttype="Sold", sym="FOO", commission="3.91", fee="0.26")
+    r.update(kw)
+    return E.render_tc_post(r, kw.get("style", 0))
+
+
+def _pre(trades, style=0, acct="XXXX-1234"):
+    return E.render_tc_pre(dict(acct=acct, trades=trades), style)
+
+
+def _t(**kw):
+    d = datetime.date(2023, 2, 20).toordinal()
+    t = dict(td=d, sd=d + 2, sym="FOO", act="SELL", qty=6, price="120.01", commission="20.05", fee="0.02")
+    t.update(kw)
+    return t
+
+
+MAXD = "79228162514264337593543950335"
+
+
+def adversarial_corpus():
+    """(label, text) pairs aimed at the regex semantics the model transliterates"""
+    out = []
+    a = lambda lab, t: out.append((lab, t))
+    two = [_g("1234", "1,000.00"), _g("1235", "90.25", "200", "120.00", "11.00")]
+    eso = _eso(two)
+    a("eso two grants", eso)
+    a("eso fee sum overflows Decimal (panic)", _eso([_g(fee=MAXD), _g("1235", fee=MAXD)]))
+    a("eso fee sum just fits", _eso([_g(fee=MAXD), _g("1235", fee="0.4")]))
+    a("eso fee sum rounds", _eso([_g(fee="7922816251426433759354395033.5"), _g("1235", fee="7922816251426433759354395033.5")]))
+    for key in ("Grant Number 1235", "Exercise Market Value $90.25", "Shares Exercised 200", "Sale Price $120.00\n        Comission/Fee $11.00",
+                "Comission/Fee $11.00", "Grant 2"):
+        a("eso row of the second grant missing: " + key.split("\n")[0], eso.replace("        " + key + "\n", "", 1) if key != "Sale Price $120.00\n        Comission/Fee $11.00"
+          else eso.replace("        Sale Price $120.00\n        Comission/Fee $11.00\n", "        Comission/Fee $11.00\n"))
+    a("eso first grant lacks its fee row", eso.replace("        Comission/Fee $10.00\n", "", 1))
+    a("eso unequal sale prices", _eso([_g(), _g("1235", sale="121.00")]))
+    a("eso grant number beyond u64", _eso([_g(num="18446744073709551616")]))
+    a("eso grant number u64 max, leading zeros", _eso([_g(num="0018446744073709551615")]))
+    a("eso two values on a row", eso.replace("Shares Exercised 100", "Shares Exercised 100 200").replace("Grant Number 1234", "Grant Number 1234\n 77"))
+    a("eso value 1.2.3", _eso([_g(fmv="1.2.3")]))
+    a("eso value of commas only", _eso([_g(shares=",")]))
+    a("eso no grants", _eso([]))
+    a("eso details twice", eso.replace("Exercise Date:", "Exercise Details\nExercise Date:"))
+    a("eso date twice", eso + "\nExercise Date: 01/02/2024\n")
+    a("eso Exercise Date before details only", eso.replace("Exercise Details", "Exercise Date").replace("Exercise Date:  02/21/2024", "x"))
+    for ty in ("Exercise Type:  Registration", "Exercise Type: Registration", "Exercise Type: \nRegistration", "Exercise Type:\n\nRegistration",
+               "Exercise Type: A Registration B Registration", "Exercise Type:\tSame-Day Sale  \n  Registration",
+               "Exercise Type: Same-Day Sale  Registration", "Exercise Type: Sale (Stock) Registration", "Exercise Type: X\nY Registration",
+               "Exercise Type:Same Registration", "Exercise Type:  Cash Registration", "Exercise Type: a\r\nRegistration"):
+        a("eso " + repr(ty), eso.replace("Exercise Type: Same-Day Sale Registration", ty))
+    a("eso shares sold with dots", _eso(two, shares_sold="1,0.0.2"))
+    a("eso shares sold in body only", eso.replace("        Shares Sold 35\n", "").replace("Grant 1\n", "Grant 1\n Shares Sold 35\n"))
+    # symbol / account / employee
+    rsu = _rsu()
+    a("rsu plain", rsu)
+    a("rsu second parenthesis after the symbol line", rsu.replace("(FOO)\n", "(FOO) (XYZ)\n", 1))
+    a("rsu parenthesis late in the document", rsu + "\nsee (Note)\n")
+    a("rsu unclosed group last", rsu + "\n(abc\n")
+    a("rsu group with digit last", rsu + "\n(a1) (b.c)\n")
+    a("rsu (Symbol))) and nothing else", rsu.replace("(Symbol)", "(Symbol)))").replace("(FOO)", "FOO"))
+    a("rsu no symbol group", rsu.replace("(FOO)", "FOO"))
+    a("rsu stock plan account", rsu.replace("Account Number 123456789", "Account Stock Plan (FOO) - 123456789"))
+    a("rsu stock plan account, no closing parenthesis", rsu.replace("Account Number 123456789", "Account Stock Plan (FOO - 123456789"))
+    a("rsu stock plan account, empty parenthesis", rsu.replace("Account Number 123456789", "Account Stock Plan () - 123456789"))
+    a("rsu stock plan account, two spaces", rsu.replace("Account Number 123456789", "Account Stock Plan (FOO)  - 123456789"))
+    a("rsu no employee id", rsu.replace("Employee ID: 0001", "Employee ID: none"))
+    for d in ("13-20-2024", "02-30-2024", "02-29-2024", "02-29-2023", "2-20-2024", "02-20-24", "02-20-12345", "00-10-2024", "01-00-2024",
+              "02-20-0000", "12-31-9999", "002-20-2024", "02-20-2024-5"):
+        a("rsu release date " + d, rsu.replace("Release Date 02-20-2024", "Release Date " + d))
+    for v in ("1" * 29 + ".0", "0." + "1" * 28, "0." + "1" * 29, MAXD + ".0", "7922816251426433759354395033.5", "1.5.5", "1."):
+        a("rsu shares released " + v, rsu.replace("Shares Released 100.0000", "Shares Released " + v))
+    a("rsu market value with commas", rsu.replace("Market Value $1,000.00", "Market Value $1,,0,00.00"))
+    a("rsu market value only per share", rsu.replace("Market Value $1,000.00", "Market Worth $1,000.00"))
+    a("rsu fee without parenthesis", rsu.replace("Fee ($4.17)", "Fee $4.17"))
+    a("rsu nbsp between key and value", rsu.replace("Shares Released 100.0000", "Shares Released  100.0000"))
+    a("rsu value on the next line", rsu.replace("Shares Released 100.0000", "Shares Released\r\n\r\n  100.0000"))
+    a("rsu marker split over lines", rsu.replace("STOCK PLAN RELEASE CONFIRMATION", "STOCK\nPLAN  RELEASE\tCONFIRMATION"))
+    a("rsu marker lower case", rsu.replace("STOCK PLAN RELEASE CONFIRMATION", "Stock Plan Release Confirmation"))
+    a("rsu and eso markers", rsu + "\nSTOCK PLAN EXERCISE CONFIRMATION\n")
+    a("empty", "")
+    a("only a marker", "TRADE CONFIRMATION")
+    a("only a post marker", "This transaction is confirmed")
+    # post-2023
+    post = _post()
+    a("post plain", post)
+    a("post fee line before the commission line", post.replace("Commission $3.91\nSupplemental\nTransaction Fee $0.26\n", "Supplemental\nTransaction Fee $0.26\nCommission $3.91\n"))
+    a("post two commission lines", post.replace("Commission $3.91\n", "Commission $3.91\nCommission $1.00\n"))
+    a("post commission without fee", _post(fee=None))
+    a("post fee without commission", _post(commission=None))
+    a("post neither", _post(commission=None, fee=None))
+    a("post commission without cents", post.replace("Commission $3.91", "Commission $3"))
+    for ty in ("S", "SS", "Sold Short", "Bought", "sell", "Sold  ", "Resold", "Buy-Sell", "buy_sell", "ROC", "SfLA x", "split", "Unsold", "Sold Description: x",
+               "Sold\tShort ", "I bought", "Boughtx", "xésold"):
+        a("post type " + repr(ty), _post(ttype=ty))
+    a("post type on the next line", post.replace("Transaction Type: Sold", "Transaction Type:\n  Sold"))
+    a("post description on the type line", post.replace("Transaction Type: Sold\nDescription: FOO", "Transaction Type: Sold Description: FOO"))
+    a("post two ISIN", post.replace("ISIN: FOO /", "ISIN: BAR ISIN: FOO /"))
+    a("post last ISIN without token", post.replace("/ US0404131064Principal $1,000.00\n", "/ US1 ISIN: ").split("ISIN: ")[0] + "ISIN: A ISIN:   ")
+    a("post ISIN on the third line", post.replace("Symbol / CUSIP", "x\nSymbol / CUSIP"))
+    a("post ISIN token on the next line", post.replace("ISIN: FOO", "ISIN:\n\nFOO"))
+    a("post header twice", post + post)
+    a("post first table broken", post.replace("Quantity Price", "Quantity  Prize", 1) + post)
+    a("post short year", post.replace("02/21/2024", "02/21/24"))
+    a("post price without point", _post(price="106"))
+    a("post quantity with point", _post(qty="5.5"))
+    a("post no account", post.replace("Account Number:", "Account No:"))
+    a("post account at end of text", "This transaction is confirmed Account Number: X1")
+    a("post account then newline", "This transaction is confirmed Account Number: X1\n")
+    a("post big commission and fee", _post(commission="7922816251426433759354395033.5", fee="7922816251426433759354395033.5"))
+    a("post trade confirmation words", post.replace("Unsolicited trade", "TRADE CONFIRMATION"))
+    # pre-2023
+    pre = _pre([_t(), _t(qty=1, price="120.011", commission=None, fee="0.01")])
+    a("pre plain", pre)
+    a("pre style 1", _pre([_t(), _t(qty=1, price="120.011", commission=None)], 1))
+    row = "02/20/23 02/22/23 61 FOO SELL 6 $120.01 Stock Plan PRINCIPAL $720.06\n"
+    head = "TRADE CONFIRMATION\nAccount Number: XXXX-9876\n"
+    for lab, body in [
+        ("mkt cpt joined", row + "x COMMISSION $20.05\nFEE $0.02\nNET AMOUNT $1\n"),
+        ("single digit mkt, no cpt", row.replace(" 61 ", " 6 ") + "x FEE $0.02\nNET AMOUNT $1\n"),
+        ("mkt cpt backtracking takes digits as symbol", "02/20/23 02/22/23 12 34 SELL 6 $1.00 x\nFEE $1.00\nNET AMOUNT\n"),
+        ("description line without commission or fee", row + "FOOSYSTEMS INC COM\nNET AMOUNT $1\n"),
+        ("net amount on the row's second line", row + "FOO COM NET AMOUNT $1\n"),
+        ("commission, fee, net on one line", row + "COMMISSION $1.10 FEE $2.20 NET AMOUNT $1\n"),
+        ("fee then commission on one line", row + "FEE $2.20 COMMISSION $1.10\nNET AMOUNT $1\n"),
+        ("fee line then commission line", row + "FEE $2.20\nCOMMISSION $1.10\nNET AMOUNT $1\n"),
+        ("two commission lines", row + "COMMISSION $1.10\nCOMMISSION $1.20\nNET AMOUNT\n"),
+        ("two commissions on the line", row + "COMMISSION $1.10 COMMISSION $1.20\nFEE $0.10\nNET AMOUNT\n"),
+        ("two fees on the line", row + "COMMISSION $1.10\nFEE $0.10 FEE $0.20\nNET AMOUNT\n"),
+        ("blank line before net", row + "COMMISSION $1.10\nFEE $0.10\n\nNET AMOUNT\n"),
+        ("net amount split over lines", row + "FEE $0.10\nNET\n  AMOUNT\n"),
+        ("two net amounts on the line, second row follows", row + "FEE $0.10\nNET AMOUNT NET AMOUNT " + row + "FEE $0.20\nNET AMOUNT\n"),
+        ("row without newline", row.rstrip("\n")),
+        ("row fields over several lines", row.replace(" ", "\n", 5) + "FEE $0.10\nNET AMOUNT\n"),
+        ("commission amount on the next line", row + "COMMISSION\n$1.10\nNET AMOUNT\n"),
+        ("four-digit year", row.replace("02/20/23", "02/20/2023") + "FEE $0.10\nNET AMOUNT\n"),
+        ("one-digit month", row.replace("02/20/23", "2/20/23") + "FEE $0.10\nNET AMOUNT\n"),
+        ("date with extra slash group", "1/" + row + "FEE $0.10\nNET AMOUNT\n"),
+        ("action hold", row.replace("SELL", "HOLD") + "FEE $0.10\nNET AMOUNT\n"),
+        ("second row bad action after a good row", row + "FEE $0.10\nNET AMOUNT\n" + row.replace("SELL", "HOLD") + "FEE $0.10\nNET AMOUNT\n"),
+        ("quantity too long", row.replace(" 6 $", " " + "9" * 30 + " $") + "FEE $0.10\nNET AMOUNT\n"),
+        ("crlf", (row + "COMMISSION $1.10\nFEE $0.10\nNET AMOUNT\n").replace("\n", "\r\n")),
+    ]:
+        a("pre " + lab, head + body)
+    a("pre account without following space", "TRADECONFIRMATION Account Number: X")
+    a("pre account number on next line", "TRADE CONFIRMATION\nAccount\n Number:\n\nX-1\n" + row + "FEE $0.10\nNET AMOUNT\n")
+    return out
+
+
+VOCAB = {
+    "rsu": ["STOCK PLAN RELEASE CONFIRMATION", "Employee ID:", "Account Number", "Account Stock Plan (X) -", "Company Name", "(Symbol)", "(FOO)", "(B.A)", "(x1)",
+            "Release Date", "02-20-2024", "Award Number", "R123", "Shares Released", "Shares Sold", "Shares Issued", "Market Value Per Share",
+            "Sale Price Per Share", "Market Value", "Total Sale Price", "Total Tax", "Fee", "Total Due Participant"],
+    "espp": ["Plan ESP2", "Plan2014", "Employee ID:", "Account Number", "Company Name (Symbol)", "(FOO)", "Purchase Date", "02-20-2024", "Shares Purchased",
+             "Purchase Value per Share", "Purchase Price per Share", "(85% of $1.0)", "Total Price", "Total Value", "Taxable Gain", "Market Value",
+             "Total Taxes Collected at purchase", "Shares Sold to Cover Taxes", "Sale Price for Shares Sold to Cover Taxes", "Value Of Shares Sold", "Fees",
+             "Amount in Excess of Tax Due"],
+    "eso": ["STOCK PLAN EXERCISE CONFIRMATION", "Employee ID:", "Account Number", "Company Name (Symbol)", "(FOO)", "Exercise Type:", "Registration", "Same-Day",
+            "Shares Sold", "Exercise Details", "Exercise Date", "Exercise Date:", "02/21/2024", "Grant 1", "Grant", "Grant Number", "Exercise Market Value",
+            "Shares Exercised", "Sale Price", "Comission/Fee"],
+    "tc_pre": ["TRADE CONFIRMATION", "Account Number:", "X-1", "02/20/23", "02/22/23", "61", "6", "1", "FOO", "SELL", "BUY", "COMMISSION", "FEE", "NET", "AMOUNT",
+               "NET AMOUNT", "Stock Plan"],
+    "tc_post": ["This transaction is confirmed", "Account Number:", "X-1", "Trade Date Settlement Date Quantity Price Settlement Amount", "02/21/2024", "02/23/2024",
+                "Transaction Type:", "Transaction", "Type:", "Sold", "Bought", "Short", "Description", "Description:", "ISIN:", "FOO", "Commission", "Transaction Fee",
+                "Fee"],
+}
+NUMS = ["1", "12", "100", "1.5", "100.0000", "1,000.00", "0.02", "$", "$1.10", "$1,000.00", "($1.10)", "($1,000.00)", "(1.5)", "(", ")", ".", ",", "1.2.3", "0001"]
+SEPS = [" ", " ", " ", "\n", "\n", "  ", "\t", "\r\n", "", "\n\n"]
+
+
+def soup(rng, kind):
+    """a random token sequence over the vocabulary of one document kind"""
+    voc = VOCAB[kind]
+    toks = [voc[0]] if rng.random() < 0.9 else []
+    for _ in range(rng.randint(3, 60)):
+        toks.append(rng.choice(voc) if rng.random() < 0.55 else rng.choice(NUMS))
+    rng.shuffle(toks)
+    return "".join(t + rng.choice(SEPS) for t in toks)
